@@ -11,6 +11,7 @@ substitutions of `<`…`>` spans by whole values of `R` — nothing lost, duplic
 -/
 import RioModel.Proofs.FilterChain
 import RioModel.Proofs.FilterValid
+import RioModel.Proofs.FilterTok
 set_option linter.unusedSimpArgs false
 set_option linter.unusedVariables false
 
@@ -387,6 +388,36 @@ theorem replace_spans {tk : Tokenize} (hl : Lossless tk) (hts : TagSpan tk) (ev 
   by_cases hk : s.visitor.kind = .replace
   · exact Or.inl ⟨h3, h2 hk⟩
   · exact Or.inr ⟨h3, hk⟩
+
+/-! ### the concrete tokenizer -/
+
+/-- `Lossless` holds for the tokenizer model of the real tokenizer (from C16's `lossless`). -/
+theorem tokenizer_lossless : Lossless htmlTokenize := htmlTokenize_lossless
+
+/-- **Insert-only filters on the real tokenizer model — no tokenizer hypothesis left.**  For append/prepend filters
+(html or text; at most one html filter), every chunking of arbitrary bytes, every selector oracle: the output is the
+input with whole copies of the values inserted, whether or not the chain fails on invalid UTF-8. -/
+theorem insert_only_conservative_concrete (ev : Bytes → Bytes → Bool) (lower : String → String)
+    (fs : List BodyFilter) (headers : List (String × String))
+    (henc : headerValue lower filterHeaderContentEncoding headers = none)
+    (hins : ∀ f ∈ fs, isTextReplace f = false ∧ filterRep f = [])
+    (hone : (fs.filter isHtmlFilter).length ≤ 1)
+    (cs : List Bytes) :
+    Edit (fs.flatMap filterIns) [] cs.flatten ((Chain.new noCodec lower fs headers).run htmlTokenize ev noCodec cs) :=
+  insert_only_conservative htmlTokenize_lossless ev lower fs headers henc hins hone cs
+
+/-- The general statement on the real tokenizer model: only `TagSpan` remains (and only if a replace filter is
+present). -/
+theorem conservative_concrete (ev : Bytes → Bytes → Bool) (lower : String → String)
+    (fs : List BodyFilter) (headers : List (String × String))
+    (henc : headerValue lower filterHeaderContentEncoding headers = none)
+    (hntr : ∀ f ∈ fs, isTextReplace f = false)
+    (hone : (fs.filter isHtmlFilter).length ≤ 1)
+    (hts : fs.flatMap filterRep ≠ [] → TagSpan htmlTokenize)
+    (cs : List Bytes) :
+    Edit (fs.flatMap filterIns) (fs.flatMap filterRep) cs.flatten
+      ((Chain.new noCodec lower fs headers).run htmlTokenize ev noCodec cs) :=
+  conservative htmlTokenize_lossless ev lower fs headers henc hntr hone hts cs
 
 /-! ### non-vacuity -/
 
